@@ -74,6 +74,10 @@ type seamState struct {
 	openW     int
 	maxOpenW  int
 	fdLimit   int
+	rdOpen    map[*os.File]bool // input handles (opened read-only by the system under test) not yet closed
+	openR     int
+	maxOpenR  int
+	rfdLimit  int // simulated descriptor limit for input handles: a further read-only open fails with EMFILE
 	guardHits []string
 	tempSeq   int
 	chunkRng  map[*os.File]*uint64
@@ -411,6 +415,10 @@ func (s *seamState) hookClose(f *os.File) error {
 		s.pipeWaiters = keep
 		s.mu.Unlock()
 	}
+	if s.rdOpen[f] {
+		delete(s.rdOpen, f)
+		s.openR--
+	}
 	if s.wrOpen[f] {
 		s.mutOp("close " + s.relName(f))
 		delete(s.wrOpen, f)
@@ -462,6 +470,11 @@ func (s *seamState) hookPath(op, name, name2 string, flag int) error {
 			return &os.PathError{Op: "open", Path: name, Err: syscall.EMFILE}
 		}
 	}
+	if op == "open" && !writeOpen && s.rfdLimit > 0 && s.openR >= s.rfdLimit {
+		rt.TraceNote("EMFILE(read) " + name)
+		s.fired = append(s.fired, FiredFault{Index: -1, Kind: "emfile_read", What: fmt.Sprintf("%s with %d input handles open", s.rel(name), s.openR), Op: s.opCount})
+		return &os.PathError{Op: "open", Path: name, Err: syscall.EMFILE}
+	}
 	if e := s.opFault(fop, name); e != nil {
 		if op == "rename" {
 			return &os.LinkError{Op: "rename", Old: name, New: name2, Err: e}
@@ -481,6 +494,12 @@ func (s *seamState) hookOpened(f *os.File, name string, flag int) {
 		s.openW++
 		if s.openW > s.maxOpenW {
 			s.maxOpenW = s.openW
+		}
+	} else {
+		s.rdOpen[f] = true
+		s.openR++
+		if s.openR > s.maxOpenR {
+			s.maxOpenR = s.openR
 		}
 	}
 }
